@@ -26,7 +26,9 @@ pub struct Sc {
 }
 
 // incl. siblings that sort differently as strings and as paths ("sub.txt" vs "sub/…": '.' < '/')
-const NAMES: &[&str] = &["a.txt", "sub/b.bin", "sub.txt", "sp ace", "q'uote", "deep/er/c", "deep/er.x", "deep!", "d$x", "sub/a", "sub-1"];
+const NAMES: &[&str] = &["a.txt", "sub/b.bin", "sub.txt", "sp ace", "q'uote", "deep/er/c", "deep/er.x", "deep!", "d$x", "sub/a", "sub-1",
+    // ordinary client files whose names merely START like the hub's private directory
+    ".copiaignore", ".copia-notes/x", "docs/.copia"];
 
 fn body(id: u32) -> Vec<u8> {
     let mut v = format!("[content {id}]").into_bytes();
@@ -67,7 +69,7 @@ fn build(sc: &Sc) -> World {
 fn hub_visible(w: &World) -> Tree {
     tree_bytes(w, HUB, ROOT)
         .into_iter()
-        .filter(|(k, _)| !k.starts_with(".copia") && !is_staging(k))
+        .filter(|(k, _)| !super::hub_common::is_hub_private(k) && !is_staging(k))
         .collect()
 }
 
